@@ -318,3 +318,38 @@ def _count_obligations(air, gen):
         short = label.replace(' not satisfied', '').replace('possible ', '')
         res[cur].append(dict(label=short, tags=tags or ['C01'], name=name or ''))
     return res
+
+
+def vacuity_check(repo_src, workdir, templates=None):
+    """Every contracted, non-trusted function must FAIL an `assert(false)` placed at the start of its body.
+    Returns (status, vacuous_functions, checked_count, reason)."""
+    try:
+        gen = verusgen.generate(repo_src, (templates or TEMPLATES), vacuity=True)
+    except ExtractionError as e:
+        return 'undecided', [], 0, 'extraction failure: %s' % e
+    os.makedirs(workdir, exist_ok=True)
+    open(os.path.join(workdir, 'vac.rs'), 'w').write(gen.text)
+    cmd = ['verus', 'vac.rs', '--rlimit', '20', '--multiple-errors', '1', '--output-json', '--', '--error-format=json']
+    try:
+        p = subprocess.run(cmd, cwd=workdir, capture_output=True, text=True, timeout=900)
+    except subprocess.TimeoutExpired:
+        return 'undecided', [], 0, 'timeout'
+    failed_fns = set()
+    for ln in p.stderr.split('\n'):
+        ln = ln.strip()
+        if ln.startswith('{') and '"$message_type"' in ln:
+            try:
+                d = json.loads(ln)
+            except Exception:
+                continue
+            if d.get('level') != 'error':
+                continue
+            for sp in d.get('spans', []):
+                ls = sp['line_start']
+                if 1 <= ls <= len(gen.linemap) and gen.linemap[ls - 1].get('section') == 'vacuity':
+                    failed_fns.add(gen.linemap[ls - 1]['fn'])
+    expected = [k for k, v in gen.functions.items() if not v.get('trusted') and not k.startswith('struct ')]
+    vacuous = [k for k in expected if k not in failed_fns]
+    if not failed_fns:
+        return 'undecided', [], len(expected), 'vacuity run produced no diagnostics: ' + p.stderr[-300:]
+    return 'ok', vacuous, len(expected), ''
